@@ -4,7 +4,8 @@ While active, builtins.open / os.replace / os.remove are proxied; every operatio
 `root` (open, each write() call, flush, close, replace, remove) gets an index in one stream.
 A fault plan {"k": index, "kind": "oserror"|"perm"|"kbi"|"exit"} fires *before* the k-th operation
 takes effect (a rename that takes effect and then reports failure is not a realistic fault).
-"call" runs plan["fn"]() (not counted, not faulted) before operation k: another writer's complete write in the
+"short": a write() on a RAW file accepts only half of the data and returns the short count (no effect on buffered
+files).  "call" runs plan["fn"]() (not counted, not faulted) before operation k: another writer's complete write in the
 same directory.  "oserror" is a one-shot EIO; "perm" is a persistent condition: PermissionError(EACCES) at operation k and
 at every later operation of the same kind (for a write also at flush/close), as a read-only directory or a
 full disk would produce.
@@ -24,7 +25,15 @@ class FileProxy:
         object.__setattr__(self, "_path", path)
 
     def write(self, data):
-        self._inj.op("write", self._path)
+        short = self._inj.op("write", self._path)
+        if short == "short":
+            import io
+
+            if isinstance(self._f, io.RawIOBase) and len(data) > 1:
+                # a raw (unbuffered) file may accept only part of the data and report how much; the buffered
+                # layers loop until everything is written, so only raw files can show this to their caller
+                self._inj.short_applied = True
+                return self._f.write(bytes(data)[: len(data) // 2])
         return self._f.write(data)
 
     def flush(self):
@@ -68,6 +77,7 @@ class Injector:
         self.fired = False
         self.sticky_kinds = ()
         self.passive = False
+        self.short_applied = False
 
     def mine(self, path):
         try:
@@ -96,6 +106,8 @@ class Injector:
                 raise KeyboardInterrupt(f"injected interrupt at file op {k} ({kind})")
             if p["kind"] == "exit":
                 os._exit(0)
+            if p["kind"] == "short":
+                return "short"
             if p["kind"] == "call":
                 # something else happens in the directory between two operations of the write under test
                 self.passive = True
